@@ -5,6 +5,8 @@ from mc import core, det
 PROPERTY = 'C16'
 ENGINE = 'E1 bounded-exhaustive enumeration of (digest, key length, message length, output length) against independent RFC 5246 P_hash / counter-mode references'
 LEVEL = 'model_checking'
+DIRECTED_ADDITIONS = 'call histories on one object, all ordered pairs of wrapper objects, outputs of 255..257 blocks and 70000 bytes, KiB messages, keyword calls, copied objects, four PRF objects alive at once'      # members added during the seeded-change campaign (DESIGN 7); counted under their own vacuity counters
+
 PRF_DIGESTS = ['sha1', 'sha256', 'sha512', 'md5']
 HASH_DIGESTS = PRF_DIGESTS + ['shake_128', 'shake_256']
 TLS_SECRET = bytes.fromhex('9bbe436ba940f017b17652849a71db35')
@@ -46,6 +48,12 @@ def grid(tier, h):
 
 
 def describe(tier):
+    d = _describe(tier)
+    d['rule'] = d['rule'] + ' Directed additions: ' + DIRECTED_ADDITIONS + '.'
+    return d
+
+
+def _describe(tier):
     return {
         'rule': 'PRF: case = (digest in {sha1,sha256,sha512,md5}, key length, message length, output length); %s; oracle: '
                 'get_prf_implementation("HmacPRF")(output_length=n, hash_func_name=h)(k, m) == independent RFC 5246 P_hash(k, m)[:n], len == n, '
